@@ -5,6 +5,11 @@ package server
 // http.DefaultTransport for the duration of a case (makeRequest builds an http.Client without a
 // transport). Runs in a testing/synctest bubble: the 60 ms progress ticker of blobUpload.Wait and
 // the 1-32 s retry sleeps of blobUpload.Run are on the virtual clock.
+//
+// A case may be a history of several pushes (other names, layers with From = cross-repository mount requests). The
+// process-wide table blobUploadManager is the code under test's state and lives through a history untouched; it is
+// emptied only BEFORE a case (every case is a fresh server process; cases share digests because layer contents are a
+// function of (size, seed)).
 
 import (
 	"context"
@@ -26,12 +31,28 @@ import (
 
 type c09LegacyDriver struct{}
 
-func (c09LegacyDriver) Begin(ctx context.Context) <-chan error {
+func (d c09LegacyDriver) Begin(ctx context.Context) <-chan error { return d.BeginPush(ctx, c09reg.Name) }
+
+func (c09LegacyDriver) BeginPush(ctx context.Context, name string) <-chan error {
 	ch := make(chan error, 1)
 	go func() {
-		ch <- PushModel(ctx, c09reg.Name, &registryOptions{}, func(api.ProgressResponse) {})
+		ch <- PushModel(ctx, name, &registryOptions{}, func(api.ProgressResponse) {})
 	}()
 	return ch
+}
+
+// c09DropUpload removes the upload registered under a digest (and closes the blob file its parked Run goroutine holds
+// open). Used before a case (fresh process) and, while legacy-mount-leaves-stale-upload-entry is a listed finding, after
+// an attempt in which the registry mounted a blob - what a fixed uploadBlob does itself.
+func c09DropUpload(digest string) bool {
+	v, ok := blobUploadManager.LoadAndDelete(digest)
+	if !ok {
+		return false
+	}
+	if b, ok := v.(*blobUpload); ok && b.file != nil {
+		b.file.Close()
+	}
+	return true
 }
 
 func c09Bubble(t *testing.T, f func()) (err error) {
@@ -51,11 +72,15 @@ func c09WithLog(err error, log []string) string {
 	return fmt.Sprintf("%v\n  event log (tail):\n    %s", err, strings.Join(log, "\n    "))
 }
 
-func c09RunLegacyPush(t *testing.T, c c09reg.PushCase) (info c09reg.Info, err error) {
+func c09RunLegacyPush(t *testing.T, c c09reg.PushCase, known func(string) bool, excluded func(string)) (info c09reg.Info, err error) {
 	c.Via = "legacy"
 	saved := http.DefaultTransport
 	defer func() { http.DefaultTransport = saved }()
+	blobUploadManager.Range(func(k, _ any) bool { c09DropUpload(k.(string)); return true })
 	env := c09reg.PushEnv{
+		Known:      known,
+		Excluded:   excluded,
+		DropUpload: c09DropUpload,
 		New: func(rt http.RoundTripper, dir string, c *c09reg.PushCase) c09reg.PullDriver {
 			os.Setenv("OLLAMA_MODELS", dir)
 			http.DefaultTransport = rt
@@ -67,6 +92,12 @@ func c09RunLegacyPush(t *testing.T, c c09reg.PushCase) (info c09reg.Info, err er
 	}
 	berr := c09Bubble(t, func() { info, err = c09reg.RunPush(c, env) })
 	if err == nil && berr != nil {
+		if slices.Contains(info.Classes, "legacy_mount_201") && strings.Contains(berr.Error(), "blocked goroutines remain") {
+			// after a mount blobUpload.Run stays parked for ever on its nil nextURL channel (the goroutine half of
+			// legacy-mount-leaves-stale-upload-entry); a leaked goroutine is not C09's subject: counted, not judged
+			info.Classes = append(info.Classes, "run_goroutine_parked_for_ever_after_mount")
+			return info, nil
+		}
 		err = berr
 	}
 	return info, err
@@ -86,7 +117,8 @@ func TestC09LegacyPush(t *testing.T) {
 			t.Fatalf("replay: %v", err)
 		}
 		own, _ := strings.CutPrefix(rp.Expect, "known:")
-		info, err := c09RunLegacyPush(t, rc)
+		// a replay that demonstrates a listed finding runs with that finding's exclusion switched off
+		info, err := c09RunLegacyPush(t, rc, func(s string) bool { return s != own && rec.Known(s) }, func(string) {})
 		t.Logf("classes: %v", info.Classes)
 		if err != nil {
 			var v *c09reg.Violation
@@ -108,7 +140,7 @@ func TestC09LegacyPush(t *testing.T) {
 		}
 		c := c09reg.GenPush(rt, "legacy")
 		rec.Current(target, c) // blobUpload.Run is a goroutine of the code under test: a crash there kills the process
-		info, err := c09RunLegacyPush(t, c)
+		info, err := c09RunLegacyPush(t, c, rec.Known, rec.Excluded)
 		rec.Case(c, info.Nontrivial, info.Classes...)
 		if err != nil {
 			rec.Fail(target, c, c09WithLog(err, info.Log))
